@@ -122,17 +122,25 @@ Example C13_ready_not_sorted :
   | None => False
   end.
 Proof.
-  destruct (run cf1 init tr_unsorted) as [s|] eqn:E; [|vm_compute in E; discriminate].
-  split; [|eapply run_reach; [apply reach_init|exact E]].
-  vm_compute in E. injection E as <-. reflexivity.
+  assert (X : exists s, run cf1 init tr_unsorted = Some s /\
+                        map (fun r => (r_w r, r_stamp r)) (ready s) = [(1%nat, 50); (0%nat, 0)]).
+  { eexists. split; [vm_compute; reflexivity|]. vm_compute. reflexivity. }
+  destruct X as (s & E & M). rewrite E. split; [exact M|]. eapply run_reach; [apply reach_init|exact E].
 Qed.
 
-(* ... and then a clean pass can retire a worker whose own lastUseTime is not yet critical (worker 1, stamp 50, critical
+(* ... and then a clean pass can retire a worker whose own lastUseTime is not yet critical (worker 2, stamp 50, critical
    time 30): early by at most the width of the race, harmless for the property, but it shows the model follows the code's
    binary search rather than an idealised "remove the stale ones". *)
+Definition cf3 := mkCfg 1 3 100.
+Definition tr_unsorted3 : list label :=
+  [GetChSpawn 0%nat; GetChSpawn 1%nat; GetChSpawn 2%nat; Send 0%nat; Send 1%nat; Send 2%nat;
+   WorkerRecv 0%nat; WorkerRecv 1%nat; WorkerRecv 2%nat;
+   WorkerServe 0%nat false; WorkerServe 1%nat false; WorkerServe 2%nat false;
+   WorkerStamp 0%nat; WorkerStamp 1%nat; Tick 50; WorkerStamp 2%nat;
+   WorkerRelease 2%nat true; WorkerRelease 0%nat true; WorkerRelease 1%nat true].
 Example C13_ex_early_retire :
-  match run cf1 init (tr_unsorted ++ [Tick 80; CleanBegin; CleanCollect 2]) with
-  | Some s => cln s = CNotify [1%nat; 0%nat] /\ ready s = []
+  match run cf3 init (tr_unsorted3 ++ [Tick 80; CleanBegin; CleanCollect 3]) with
+  | Some s => cln s = CNotify [2%nat; 0%nat; 1%nat] /\ ready s = []
   | None => False
   end.
 Proof. vm_compute. split; reflexivity. Qed.
